@@ -12,5 +12,17 @@ impl OffsetDateTime {
 }
 #[derive(Clone, Copy, PartialEq, Eq, PartialOrd, Ord, Debug)]
 pub struct Duration(i64);
-impl Duration { pub const fn days(d: i64) -> Self { Self(d * 86_400) } pub const fn whole_seconds(self) -> i64 { self.0 } }
+impl Duration {
+    pub const fn weeks(w: i64) -> Self { Self(w * 604_800) }
+    pub const fn days(d: i64) -> Self { Self(d * 86_400) }
+    pub const fn hours(h: i64) -> Self { Self(h * 3_600) }
+    pub const fn minutes(m: i64) -> Self { Self(m * 60) }
+    pub const fn seconds(s: i64) -> Self { Self(s) }
+    // truncating accessors, as in the `time` crate
+    pub const fn whole_weeks(self) -> i64 { self.0 / 604_800 }
+    pub const fn whole_days(self) -> i64 { self.0 / 86_400 }
+    pub const fn whole_hours(self) -> i64 { self.0 / 3_600 }
+    pub const fn whole_minutes(self) -> i64 { self.0 / 60 }
+    pub const fn whole_seconds(self) -> i64 { self.0 }
+}
 impl core::ops::Sub for OffsetDateTime { type Output = Duration; fn sub(self, r: Self) -> Duration { Duration(self.0 - r.0) } }
